@@ -1,6 +1,7 @@
 """Shared helpers of the C01 / C02 checks (one spec family: spec/Params, one driver: harness/drv_params.cpp)."""
 import json
 import os
+import re
 import vcommon as vc
 
 SPEC = os.path.join(vc.VERIF, "spec", "Params")
@@ -13,6 +14,26 @@ def signature(rj):
     if ev.get("own") == 1:
         sig["via"] = "owner"
     return sig
+
+
+_COV = re.compile(r"<(\w+) line (\d+), col \d+ to line \d+, col \d+ of module (\w+)(?: \((\d+) \d+ \d+ \d+\))?>: (\d+):(\d+)")
+
+
+def add_design(ck, name, r, constants):
+    """Register a design-model run; sub-actions of the next-state relation that generated no state at all are
+    listed as untaken (TLC -coverage reports <distinct>:<generated> per disjunct of Next)."""
+    ck.add_model(name, r, constants)
+    taken = 0
+    for m in _COV.finditer(r.out):
+        if m.group(1) in ("Init", "InitP", "InitL"):
+            continue
+        if int(m.group(6)) == 0:
+            ck.untaken.append("%s:%s@line%s" % (name, m.group(1), m.group(4) or m.group(2)))
+        else:
+            taken += 1
+    ck.extra.setdefault("design_subactions_taken", {})[name] = taken
+    if r.invariant:
+        ck.violation("design model %s violates %s" % (name, r.invariant), [r.out[-6000:]], tag="model")
 
 
 def validate(ck, trace, tag="t"):
